@@ -7,7 +7,11 @@ package configmigrate
 //vx:overlay internal/configmigrate/zz_vx_c13.go
 //vx:entry vxC13Step reach=stamped,step-error
 //vx:entry vxC13Migrate reach=upgraded,untouched,failed
+//vx:entry vxC13Chain reach=chain-ok,chain-error
 //vx:stub os.Remove vxC13Remove
+//vx:opaque (net/netip.AddrPort).String
+//vx:opaque (github.com/AdguardTeam/golibs/timeutil.Duration).String
+//vx:opaque (time.Duration).String
 //vx:stub golang.org/x/crypto/bcrypt.GenerateFromPassword vxC13Bcrypt
 //vx:stub gopkg.in/yaml.v3.Unmarshal vxC13Unmarshal
 //vx:stub (*gopkg.in/yaml.v3.Encoder).Encode vxC13Encode
@@ -15,6 +19,7 @@ package configmigrate
 //vx:stub gopkg.in/yaml.v3.NewEncoder vxC13NewEncoder
 //vx:note the document is an arbitrary untyped tree (lazy): the presence of a key is decided at its first lookup, nil-ness and dynamic type of a value at the first nil test / type assertion (so keys present / absent / null / of unexpected type all arise); bounds: at most 2 (quick) / 3 (thorough) of the keys a step looks at are present per map, strings 0..2 bytes, lists 0..2 elements, nesting depth 3
 //vx:note Step entry: each of the 29 steps is run alone through the real step table on an arbitrary document (so every chain of steps is panic-free); Migrate entry: the real Migrate with the last 1..2 steps
+//vx:note Chain entry: every window of 2..4 (quick) / 2..5 (thorough) consecutive steps run in one go through the real table: a chain must not fail with a type error on a value that an earlier step of the same run stored (the one-run vs several-runs clause, as far as it is visible without a YAML round trip)
 //vx:note outside: YAML text <-> value mapping (yaml.v3 is reflection driven), hence one-run vs split-run equality and acceptance by the current loader are not claimed
 
 import (
@@ -96,7 +101,20 @@ func vxC13Migrate() {
 	vxC13Doc = doc
 	vxC13ParseErr = vx.Bool("yamlParseError")
 	vxC13Encoded = nil
-	target := LastSchemaVersion - uint(vx.Choice("targetBelowLast", 2))
+	var target uint
+	if vx.Bool("lazyVersion") {
+		// arbitrary stamp (absent, null, wrong type, any integer) against an
+		// early target, so that at most two trivial steps run
+		target = 1 + uint(vx.Choice("earlyTarget", 2))
+	} else {
+		// the last steps: stamp = target-2 (thorough) .. target+1
+		target = LastSchemaVersion - uint(vx.Choice("targetBelowLast", 2))
+		back := 2
+		if vx.Thorough() {
+			back = 3
+		}
+		doc["schema_version"] = int(target) + 1 - vx.Choice("stampBelowTargetPlus1", back+1)
+	}
 	body := []byte("schema_version: x\n")
 	m := New(&Config{WorkingDir: "/w", DataDir: "/w/data"})
 
@@ -117,4 +135,46 @@ func vxC13Migrate() {
 	v, ok := doc["schema_version"]
 	n, isInt := v.(int)
 	vx.Assert(ok && isInt && uint(n) == target, "an upgraded document is stamped with the target schema version")
+}
+
+// vxC13Chain runs several consecutive steps in one run.  A failure with the
+// "unexpected type" error although no value of the input document had an
+// unexpected type means that a step cannot read what an earlier step of the
+// same run wrote (in a run split by a serialisation it could): the result
+// would depend on how the upgrade is split.
+func vxC13Chain() {
+	n := int(LastSchemaVersion)
+	maxLen := 4
+	if vx.Thorough() {
+		maxLen = 5
+	}
+	from := vx.Choice("from", n-1)
+	length := 2 + vx.Choice("len", maxLen-1)
+	if from+length > n {
+		length = n - from
+	}
+	// chains multiply the per-step cases: at most 1 (quick) / 2 (thorough) of
+	// the inspected keys present per map
+	doc := vx.LazyObject(vxC13MaxKeys() - 1)
+	m := &Migrator{workingDir: "/w", dataDir: "/w/data"}
+	err := m.upgradeConfigSchema(uint(from), uint(from+length), doc)
+	if err == nil {
+		vx.Reach("chain-ok")
+		v, ok := doc["schema_version"]
+		k, isInt := v.(int)
+		vx.Assert(ok && isInt && k == from+length, "the chain stamps the last version")
+		return
+	}
+	vx.Reach("chain-error")
+	if vx.LazyTypeMismatches() == 0 {
+		msg := err.Error()
+		typeErr := false
+		const pat = "unexpected type of"
+		for i := 0; i+len(pat) <= len(msg); i++ {
+			if msg[i:i+len(pat)] == pat {
+				typeErr = true
+			}
+		}
+		vx.Assert(!typeErr, "no step fails with a type error on a value that an earlier step of the same run wrote")
+	}
 }
